@@ -44,6 +44,10 @@ func TestMakeExemplars(t *testing.T) {
 		"failing-item-in-a-shared-lazy-list": {Progs: one(Let("l", MCall(ints(4, 3, 0, 2), "map", Lam([]string{"e"}, Bin("%", Int(9), Var("e")))),
 			If(Bin(">", x, Int(0)), MCall(Var("l"), "size"), MCall(Var("l"), "first"))), TInt), Tuples: [][][]*Expr{{{Int(1)}, {Int(0)}}},
 			Steps: []Step{ev(0), ev(1), ev(0), ev(0), ev(1)}, Opt: true},
+		// one call site sees a map without the closure field first, then one with it
+		"call-site-sees-maps-with-and-without-the-closure-field": {Progs: one(MCall(If(Bin(">", x, Int(0)),
+			Map([]string{"v", "get"}, []*Expr{Int(0), Lam([]string{"s"}, Bin("+", MCall(Var("s"), "len"), Int(10)))}), Map([]string{"v"}, []*Expr{Int(5)})), "get", Str("v")), TInt),
+			Tuples: [][][]*Expr{{{Int(0)}, {Int(1)}}}, Steps: []Step{ev(0), ev(1), ev(0), ev(1)}, Opt: true},
 		// a failing evaluation in between
 		"failing-evaluation-in-between": {Progs: one(Let("a", MCall(SCall("numbers", Int(5)), "map", Lam([]string{"e"}, Bin("/", Int(12), Bin("-", x, Var("e"))))), MCall(Var("a"), "reduce", Lam([]string{"p", "q"}, Bin("+", Var("p"), Var("q"))))), TInt),
 			Tuples: [][][]*Expr{{{Int(8)}, {Int(3)}}}, Steps: []Step{ev(0), ev(1), ev(0), {Op: "generate"}, ev(0)}, Opt: true},
